@@ -56,7 +56,15 @@ Record R0 (t : st) (v : vt) : Prop := mkR0 {
   r_u8 : u8eat t = None;
   r_modes : modes t = modes0;
   r_cset : cset t = charset_new;
-  r_tabs : tabstops t = tabs0 (v_w v) }.
+  r_tabs : tabstops t = tabs0 (v_w v);
+  r_replies : replies_of (events t) = map render_reply (v_replies v);
+  r_sb : v_sbknown v = true -> grid_rel (sb t) (tail_max (v_sb v)) }.
+
+Ltac hist :=
+  try match goal with
+      | H : events ?t' = events ?t, R : replies_of (events ?t) = _ |- replies_of (events ?t') = _ => rewrite H; exact R
+      | H : sb ?t' = sb ?t, R : _ = true -> grid_rel (sb ?t) _ |- _ = true -> grid_rel (sb ?t') _ => rewrite H; exact R
+      end.
 
 Definition R (s : st) (v : vt) : Prop := R0 s v /\ inesc s = false /\ pstate s = 0.
 
@@ -66,22 +74,22 @@ Proof. intros ([] & He & Hp). constructor; auto; rewrite r_modes0; reflexivity. 
 (* fields R0 reads, other than cur and rotten *)
 Definition same_gfx (t t' : st) : Prop :=
   width t' = width t /\ height t' = height t /\ term t' = term t /\ sr_start t' = sr_start t /\ sr_end t' = sr_end t /\
-  attrspec t' = attrspec t /\ u8eat t' = u8eat t /\ modes t' = modes t /\ cset t' = cset t /\ tabstops t' = tabstops t.
+  attrspec t' = attrspec t /\ u8eat t' = u8eat t /\ modes t' = modes t /\ cset t' = cset t /\ tabstops t' = tabstops t /\ sb t' = sb t /\ events t' = events t.
 
 Lemma R0_moved t t' v x y p :
   R0 t v -> Inv t' -> same_gfx t t' -> cur t' = (x, y) -> rotten t' = p -> (p = true -> x = v_w v - 1) ->
   R0 t' (with_xy v x y p).
 Proof.
-  intros [] I' (E1 & E2 & E3 & E4 & E5 & E6 & E7 & E8 & E9 & E10) Hc Hr Hp.
-  constructor; cbn [with_xy v_w v_h v_g v_x v_y v_pend v_top v_bot v_attr]; try congruence; auto.
+  intros [] I' (E1 & E2 & E3 & E4 & E5 & E6 & E7 & E8 & E9 & E10 & E11 & E12) Hc Hr Hp.
+  constructor; cbn [with_xy v_w v_h v_g v_x v_y v_pend v_top v_bot v_attr v_sb v_sbknown v_replies]; try congruence; auto; hist.
 Qed.
 
 Lemma R0_parser t t' v :
   R0 t v -> same_gfx t t' -> cur t' = cur t -> rotten t' = rotten t -> cursor t' = cursor t -> sup t' = sup t ->
   tabstops t' = tabstops t -> saved_attrs t' = saved_attrs t -> events t' = events t -> sb t' = sb t -> R0 t' v.
 Proof.
-  intros [] (E1 & E2 & E3 & E4 & E5 & E6 & E7 & E8 & E9 & E10) Hc Hr H1 H2 H3 H4 H5 H6.
-  constructor; try congruence; auto.
+  intros [] (E1 & E2 & E3 & E4 & E5 & E6 & E7 & E8 & E9 & E10 & E11 & E12) Hc Hr H1 H2 H3 H4 H5 H6.
+  constructor; try congruence; auto; hist.
   eapply Inv_ext; [| | | | | | | | | | | | |eassumption]; auto.
 Qed.
 
@@ -119,7 +127,7 @@ Proof.
   destruct (stc_frame (with_rotten t false) x y) as (F & C & Rt & _).
   eapply R0_moved; [exact H| | | | |discriminate].
   - eapply K_Inv. apply set_term_cursor_unrotten_K. assumption.
-  - destruct F as (E1 & E2 & E3 & E4 & E5 & E6 & E7 & E8 & E9 & E10). repeat split; assumption.
+  - destruct F as (E1 & E2 & E3 & E4 & E5 & E6 & E7 & E8 & E9 & E10 & E11 & E12). repeat split; assumption.
   - rewrite C. rewrite constrain_plain by (cbn; rewrite r_modes0; reflexivity). cbn [width height with_rotten].
     rewrite r_w0, r_h0. reflexivity.
   - rewrite Rt. reflexivity.
@@ -257,7 +265,7 @@ Qed.
 Lemma R0_same t t' v :
   R0 t v -> Inv t' -> same_gfx t t' -> cur t' = cur t -> rotten t' = rotten t -> R0 t' v.
 Proof.
-  intros [] I' (E1 & E2 & E3 & E4 & E5 & E6 & E7 & E8 & E9 & E10) Hc Hr. constructor; try congruence; auto.
+  intros [] I' (E1 & E2 & E3 & E4 & E5 & E6 & E7 & E8 & E9 & E10 & E11 & E12) Hc Hr. constructor; try congruence; auto; hist.
 Qed.
 
 (* ---------- single bytes ---------- *)
@@ -334,7 +342,7 @@ Proof.
   { pose proof (csi_set_scroll_K X (Z.max t 0) (Z.max b 0) r_inv0) as Kc. unfold csi_set_scroll in Kc. cbv zeta in Kc.
     rewrite r_h0, E1, E2 in Kc. fold b' in Kc. rewrite C in Kc. apply K_Inv in Kc. exact Kc. }
   clearbody b' ot.
-  destruct (stc_frame (with_rotten s2 false) 0 0) as ((F1 & F2 & F3 & F4 & F5 & F6 & F7 & F8 & F9 & F10) & Fc & Fr & _).
+  destruct (stc_frame (with_rotten s2 false) 0 0) as ((F1 & F2 & F3 & F4 & F5 & F6 & F7 & F8 & F9 & F10 & F11 & F12) & Fc & Fr & _).
   assert (sr_start s2 = ot - 1) as S1.
   { subst s2. cbn [sr_start with_sr_end with_sr_start]. rewrite constrain_ign. rewrite r_h0. split_ifs; lia. }
   assert (sr_end s2 = b' - 1) as S2.
@@ -353,6 +361,8 @@ Proof.
   - rewrite F8. exact r_modes0.
   - rewrite F9. exact r_cset0.
   - rewrite F10. exact r_tabs0.
+  - rewrite F12. exact r_replies0.
+  - rewrite F11. exact r_sb0.
 Qed.
 
 Lemma sim_dsr s v n : R s v -> small n ->
@@ -361,9 +371,21 @@ Proof.
   intros HR Hn. cbn [enc_cmd exec].
   eapply (sim_csi s v [n] 110 1 0 110); [assumption|repeat constructor; assumption|reflexivity|unfold plain_byte; lia|].
   intros X HX. rewrite cd_misc. replace (110 =? 114) with false by reflexivity. replace (110 =? 110) with true by reflexivity.
-  eexists. split; [reflexivity|]. pose proof HX as [].
-  eapply R0_same; [exact HX|eapply K_Inv; apply csi_status_report_K; assumption| | |];
-    unfold csi_status_report, respond; split_ifs; repeat split.
+  eexists. split; [reflexivity|]. pose proof HX as []. pose proof (csi_status_report_K X (dflt_of 0 n) r_inv0) as Kc. apply K_Inv in Kc.
+  rewrite csi_args_1 in *. cbn [arg nth] in *. rewrite dflt_zero in *.
+  assert (forall r', replies_of (Respond r' :: events X) = replies_of (events X) ++ [r']) as Hr.
+  { intros r'. unfold replies_of. cbn [rev]. rewrite flat_map_app. cbn [flat_map app]. reflexivity. }
+  unfold csi_status_report, respond in *. rewrite r_cur0 in *. cbn [fst snd] in *.
+  destruct (Z.max n 0 =? 5) eqn:C5; [|destruct (Z.max n 0 =? 6) eqn:C6].
+  - replace (n =? 5) with true by lia.
+    constructor; cbn [v_w v_h v_g v_x v_y v_pend v_top v_bot v_attr v_sb v_sbknown v_replies events with_events]; auto.
+    rewrite Hr, r_replies0, map_app. reflexivity.
+  - replace (n =? 5) with false by lia. replace (n =? 6) with true by lia.
+    constructor; cbn [v_w v_h v_g v_x v_y v_pend v_top v_bot v_attr v_sb v_sbknown v_replies events with_events]; auto.
+    rewrite Hr, r_replies0, map_app. reflexivity.
+  - replace (n =? 5) with false by lia. replace (n =? 6) with false by lia.
+    constructor; cbn [v_w v_h v_g v_x v_y v_pend v_top v_bot v_attr v_sb v_sbknown v_replies]; auto.
+    rewrite app_nil_r. exact r_replies0.
 Qed.
 
 (* ---------- the initial states are related ---------- *)
@@ -373,12 +395,12 @@ Lemma clear_fields s :
   term s' = repeatz (empty_line s [32]) (height s) /\ cur s' = (clamp 0 (width s), clamp 0 (height s)) /\
   width s' = width s /\ height s' = height s /\ sr_start s' = sr_start s /\ sr_end s' = sr_end s /\
   rotten s' = rotten s /\ attrspec s' = attrspec s /\ u8eat s' = u8eat s /\ modes s' = modes s /\ cset s' = cset s /\
-  inesc s' = inesc s /\ pstate s' = pstate s /\ tabstops s' = tabstops s.
+  inesc s' = inesc s /\ pstate s' = pstate s /\ tabstops s' = tabstops s /\ sb s' = sb s /\ events s' = events s.
 Proof.
   intros Hm. unfold clear. cbv zeta.
   match goal with |- context [set_term_cursor ?S 0 0] => set (S0 := S) end.
-  destruct (stc_frame S0 0 0) as ((F1 & F2 & F3 & F4 & F5 & F6 & F7 & F8 & F9 & F10) & Fc & Fr & Fi & Fp & _).
-  rewrite F1, F2, F3, F4, F5, F6, F7, F8, F9, F10, Fc, Fr, Fi, Fp.
+  destruct (stc_frame S0 0 0) as ((F1 & F2 & F3 & F4 & F5 & F6 & F7 & F8 & F9 & F10 & F11 & F12) & Fc & Fr & Fi & Fp & _).
+  rewrite F1, F2, F3, F4, F5, F6, F7, F8, F9, F10, F11, F12, Fc, Fr, Fi, Fp.
   rewrite constrain_plain by exact Hm. repeat split; reflexivity.
 Qed.
 
@@ -388,12 +410,13 @@ Lemma reset_fields s :
   cur s' = (clamp 0 (width s), clamp 0 (height s)) /\
   width s' = width s /\ height s' = height s /\ sr_start s' = 0 /\ sr_end s' = height s - 1 /\
   rotten s' = false /\ attrspec s' = None /\ u8eat s' = u8eat s /\ modes s' = modes_reset (modes s) /\
-  cset s' = charset_new /\ inesc s' = false /\ pstate s' = 0 /\ tabstops s' = tabs0 (width s).
+  cset s' = charset_new /\ inesc s' = false /\ pstate s' = 0 /\ tabstops s' = tabs0 (width s) /\
+  sb s' = sb s /\ events s' = events s.
 Proof.
   unfold reset. cbv zeta.
   match goal with |- context [clear ?S None] => set (S0 := S) end.
-  destruct (clear_fields S0 eq_refl) as (F1 & F2 & F3 & F4 & F5 & F6 & F7 & F8 & F9 & F10 & F11 & F12 & F13 & F14).
-  cbv zeta in *. rewrite F1, F2, F3, F4, F5, F6, F7, F8, F9, F10, F11, F12, F13, F14.
+  destruct (clear_fields S0 eq_refl) as (F1 & F2 & F3 & F4 & F5 & F6 & F7 & F8 & F9 & F10 & F11 & F12 & F13 & F14 & F15 & F16).
+  cbv zeta in *. rewrite F1, F2, F3, F4, F5, F6, F7, F8, F9, F10, F11, F12, F13, F14, F15, F16.
   repeat split; reflexivity.
 Qed.
 
@@ -402,17 +425,19 @@ Proof. intros. induction n; cbn; constructor; auto. Qed.
 
 Lemma R_reset S :
   Inv (reset S) -> 1 <= width S -> 1 <= height S -> u8eat S = None -> m_bracketed (modes S) = false ->
+  sb S = [] -> events S = [] ->
   R (reset S) (vt_init (width S) (height S)).
 Proof.
-  intros I Hw Hh Hu Hb.
-  destruct (reset_fields S) as (F1 & F2 & F3 & F4 & F5 & F6 & F7 & F8 & F9 & F10 & F11 & F12 & F13 & F14). cbv zeta in *.
+  intros I Hw Hh Hu Hb Hsb Hev.
+  destruct (reset_fields S) as (F1 & F2 & F3 & F4 & F5 & F6 & F7 & F8 & F9 & F10 & F11 & F12 & F13 & F14 & F15 & F16). cbv zeta in *.
   split; [|split; assumption].
   constructor; cbn [vt_init v_w v_h v_g v_x v_y v_pend v_top v_bot v_attr];
-    rewrite ?F1, ?F2, ?F3, ?F4, ?F5, ?F6, ?F7, ?F8, ?F9, ?F10, ?F11, ?F14; auto; try reflexivity; try discriminate.
+    rewrite ?F1, ?F2, ?F3, ?F4, ?F5, ?F6, ?F7, ?F8, ?F9, ?F10, ?F11, ?F14, ?F15, ?F16, ?Hsb, ?Hev; auto; try reflexivity; try discriminate.
   - unfold repeatz. apply Forall2_repeat. apply Forall2_repeat. split; [reflexivity|]. split; [reflexivity|]. split; exact Logic.I.
   - unfold clamp. split_ifs; try lia. reflexivity.
   - split; exact Logic.I.
   - unfold modes_reset, modes0. rewrite Hb. reflexivity.
+  - intros _. constructor.
 Qed.
 
 Definition raw0 (w h e : Z) : st := (mkSt w h [] (0, 0) (Some (0, 0)) false [] 0 None [] [] false 0 None charset_new None None false 0 (h - 1) [] (mkModes false false false false false false true true false charset_default_gen) [] e).
@@ -422,7 +447,7 @@ Proof. reflexivity. Qed.
 Lemma R_init w h e : 1 <= w -> 1 <= h -> R (init w h e) (vt_init w h).
 Proof.
   intros Hw Hh. pose proof (init_Inv w h e Hw Hh) as I. rewrite init_raw in *.
-  exact (R_reset (raw0 w h e) I Hw Hh eq_refl eq_refl).
+  exact (R_reset (raw0 w h e) I Hw Hh eq_refl eq_refl eq_refl eq_refl).
 Qed.
 
 (* ---------- what R gives at the end ---------- *)
@@ -466,7 +491,9 @@ Record Rg (t : st) (v : vt) : Prop := mkRg {
   g_u8 : u8eat t = None;
   g_modes : modes t = modes0;
   g_cset : cset t = charset_new;
-  g_tabs : tabstops t = tabs0 (v_w v) }.
+  g_tabs : tabstops t = tabs0 (v_w v);
+  g_replies : replies_of (events t) = map render_reply (v_replies v);
+  g_sb : v_sbknown v = true -> grid_rel (sb t) (tail_max (v_sb v)) }.
 
 Lemma R0_Rg t v : R0 t v -> Rg t v.
 Proof. intros []. constructor; assumption. Qed.
@@ -489,7 +516,7 @@ Proof. intros []. constructor; assumption. Qed.
 Lemma Rg_same t t' v :
   Rg t v -> Inv t' -> same_gfx t t' -> cur t' = cur t -> Rg t' v.
 Proof.
-  intros [] I' (E1 & E2 & E3 & E4 & E5 & E6 & E7 & E8 & E9 & E10) Hc. constructor; try congruence; auto.
+  intros [] I' (E1 & E2 & E3 & E4 & E5 & E6 & E7 & E8 & E9 & E10 & E11 & E12) Hc. constructor; try congruence; auto; hist.
 Qed.
 
 Lemma Rg_rotten t v b : Rg t v -> Rg (with_rotten t b) v.
@@ -502,8 +529,8 @@ Lemma Rg_move t v x y p :
   Rg t v -> Rg (set_term_cursor t x y) (with_xy v (clamp x (v_w v)) (clamp y (v_h v)) p).
 Proof.
   intros H. pose proof H as [].
-  destruct (stc_frame t x y) as ((E1 & E2 & E3 & E4 & E5 & E6 & E7 & E8 & E9 & E10) & C & _).
-  constructor; cbn [with_xy v_w v_h v_g v_x v_y v_pend v_top v_bot v_attr]; try congruence; auto.
+  destruct (stc_frame t x y) as ((E1 & E2 & E3 & E4 & E5 & E6 & E7 & E8 & E9 & E10 & E11 & E12) & C & _).
+  constructor; cbn [with_xy v_w v_h v_g v_x v_y v_pend v_top v_bot v_attr v_sb v_sbknown v_replies]; try congruence; auto; hist.
   - eapply K_Inv. apply set_term_cursor_K. assumption.
   - rewrite C. rewrite constrain_plain by (rewrite g_modes0; reflexivity). rewrite g_w0, g_h0. reflexivity.
 Qed.
@@ -554,10 +581,10 @@ Qed.
 Lemma Rg_upd t t' v g1 :
   Rg t v -> Inv t' -> width t' = width t -> height t' = height t -> cur t' = cur t -> sr_start t' = sr_start t ->
   sr_end t' = sr_end t -> attrspec t' = attrspec t -> u8eat t' = u8eat t -> modes t' = modes t -> cset t' = cset t ->
-  tabstops t' = tabstops t -> grid_rel (term t') g1 -> Rg t' (with_g v g1).
+  tabstops t' = tabstops t -> sb t' = sb t -> events t' = events t -> grid_rel (term t') g1 -> Rg t' (with_g v g1).
 Proof.
-  intros [] I' E1 E2 E3 E4 E5 E6 E7 E8 E9 E10 G.
-  constructor; cbn [with_g v_w v_h v_g v_x v_y v_pend v_top v_bot v_attr]; try congruence; auto.
+  intros [] I' E1 E2 E3 E4 E5 E6 E7 E8 E9 E10 E11 E12 G.
+  constructor; cbn [with_g v_w v_h v_g v_x v_y v_pend v_top v_bot v_attr v_sb v_sbknown v_replies]; try congruence; auto; hist.
 Qed.
 
 Lemma rowz_len t y : Inv t -> 0 <= y < height t -> zlen (rowz (term t) y) = width t.
@@ -635,6 +662,25 @@ Proof.
 Qed.
 
 (* ---------- scrolling ---------- *)
+Lemma tail_max_push (b : list row) (l : list rrow) r r' :
+  grid_rel b (tail_max l) -> Forall2 cell_rel r r' -> grid_rel (sb_push b r) (tail_max (l ++ [r'])).
+Proof.
+  intros Hb Hr. pose proof (Forall2_zlen _ _ _ Hb) as Lb. unfold grid_rel, tail_max, sb_push in *. cbv zeta.
+  unfold scrollback_maxlen_gen in *. unfold row, cell, rrow, rcell in *. pose proof (zlen_nonneg l) as Ll.
+  assert (zlen (l ++ [r']) = zlen l + 1) as La by (unfold zlen; rewrite app_length; cbn [length]; lia).
+  assert (zlen (b ++ [r]) = zlen b + 1) as Lba by (unfold zlen; rewrite app_length; cbn [length]; lia).
+  rewrite La, Lba.
+  destruct (Z_lt_ge_dec (zlen l) 10000) as [C|C].
+  - rewrite (dropz_nonpos l) in * by lia. rewrite (dropz_nonpos (l ++ [r'])) by lia.
+    replace (10000 <? zlen b + 1) with false by lia. apply Forall2_app; [exact Hb|]. constructor; [exact Hr|constructor].
+  - rewrite zlen_dropz in Lb by lia.
+    replace (10000 <? zlen b + 1) with true by lia.
+    replace (zlen l + 1 - 10000) with (1 + (zlen l - 10000)) by lia.
+    rewrite <- dropz_dropz' by lia. apply Forall2_dropz.
+    rewrite dropz_app. rewrite (dropz_nonpos [r']) by lia.
+    apply Forall2_app; [exact Hb|]. constructor; [exact Hr|constructor].
+Qed.
+
 Lemma scroll_up_Rg t v :
   Rg t v ->
   exists t', scroll t false = Ok t' /\ Rg t' (scroll_up v) /\
@@ -655,7 +701,11 @@ Proof.
   eexists. split; [reflexivity|]. split; [|repeat split; reflexivity].
   apply K_Inv in Kp.
   unfold scroll_up.
-  constructor; cbn [v_w v_h v_g v_x v_y v_pend v_top v_bot v_attr]; auto.
+  destruct (rowz_rel (term t) (v_g v) (v_top v) g_grid0 ltac:(lia)) as (_ & _ & Rtop).
+  constructor; cbn [v_w v_h v_g v_x v_y v_pend v_top v_bot v_attr v_sb v_sbknown v_replies]; auto.
+  2:{ intros Hk. apply andb_prop in Hk. destruct Hk as [Hk1 Hk2]. rewrite Hk2. apply Z.eqb_eq in Hk2.
+      cbn [sb with_term]. subst t1. unfold sb_append. cbv zeta. cbn [sb with_sb]. fold (sb_push (sb t) (rowz (term t) (v_top v))).
+      apply tail_max_push; [apply g_sb0; exact Hk1|]. rewrite Hk2 in Rtop. rewrite Hk2. exact Rtop. }
   subst T. cbn [term with_term].
   rewrite (scroll_up_list (term t) (v_top v) (v_bot v)) by lia.
   unfold grid_rel, sub. replace (v_bot v + 1 - (v_top v + 1)) with (v_bot v - v_top v) by lia.
@@ -1742,6 +1792,19 @@ Proof.
   erewrite with_xy_eq; [apply R0_move; assumption| |]; unfold clamp; split_ifs; lia.
 Qed.
 
+Lemma list_eqb_refl l : list_eqb l l = true.
+Proof. induction l; cbn [list_eqb]; [reflexivity|]. rewrite IHl. replace (a =? a) with true by lia. reflexivity. Qed.
+
+Lemma lists_eqb_refl l : lists_eqb l l = true.
+Proof. induction l; cbn [lists_eqb]; [reflexivity|]. rewrite IHl, list_eqb_refl. reflexivity. Qed.
+
+Lemma R0_history t v : R0 t v -> agrees_history t v = true.
+Proof.
+  intros []. unfold agrees_history. rewrite r_replies0, lists_eqb_refl. cbn [andb].
+  destruct (v_sbknown v) eqn:K; [|reflexivity].
+  apply (all2_Forall2 _ (Forall2 cell_rel) _ _ (fun a b => all2_Forall2 _ cell_rel a b cell_rel_agrees) (r_sb0 eq_refl)).
+Qed.
+
 (* ---------- composition ---------- *)
 Definition cmd_small (c : cmd) : Prop :=
   match c with
@@ -1797,10 +1860,11 @@ Qed.
 
 Lemma refines_vt100 w h e cs :
   1 <= w -> 1 <= h -> forallb cmd_ok cs = true -> Forall cmd_small cs -> unambiguous (vt_init w h) cs = true ->
-  exists s, run (init w h e) [Feed (enc_cmds cs)] = Ok s /\ agrees s (run_ref (vt_init w h) cs) = true.
+  exists s, run (init w h e) [Feed (enc_cmds cs)] = Ok s /\ agrees s (run_ref (vt_init w h) cs) = true /\
+            agrees_history s (run_ref (vt_init w h) cs) = true.
 Proof.
   intros Hw Hh Hok Hs Hu.
   destruct (sim_cmds cs (init w h e) (vt_init w h) (R_init w h e Hw Hh) Hok Hs Hu) as (s' & E & (HR & _)).
   exists s'. cbn [run step]. rewrite addstr_addbytes by (apply init_Inv; assumption). rewrite E. cbn [bind].
-  split; [reflexivity|]. apply R0_agrees. assumption.
+  split; [reflexivity|]. split; [apply R0_agrees|apply R0_history]; assumption.
 Qed.
